@@ -361,6 +361,81 @@ def run_l(case, ctx):
             'inconclusive': inconc}
 
 
+def _h_cases():
+    """H: -rel-here is the directory of the file that holds the instruction - also when that file is a suite file named by a
+    relative path with a directory part from another current directory, or a file included two levels deep through sub
+    directories."""
+    for shape in ('include-2-levels', 'include-3-levels', 'include-sibling-dirs', 'suite-relative', 'suite-option-relative',
+                  'suite-absolute', 'case-relative-from-parent', 'case-relative-dotdot'):
+        yield {'t': 'H', 'shape': shape}
+
+
+def run_h(case, ctx):
+    ses = ctx.get_session()
+    shape = case['shape']
+    pr = probe.PROBE
+    root = os.path.realpath(ses.new_case_dir({}))
+    rec = os.path.join(root, 'rec.jsonl')
+    P = lambda ident, sym: '%% %s %s %s @[%s]@' % (pr, rec, probe.ctrl(id=ident), sym)
+    files, argv, cwd, want = {}, None, root, {}
+    if shape.startswith('include'):
+        files['proj/main.case'] = '[setup]\ndef path P0 = -rel-here d0.txt\nincluding inc/a.xly\n' + P('p0', 'P0') + '\n' + \
+            P('p1', 'P1') + '\n' + P('p2', 'P2') + '\n[act]\n$ true\n'
+        files['proj/inc/a.xly'] = 'def path P1 = -rel-here d1.txt\nincluding deep/b.xly\n'
+        files['proj/inc/deep/b.xly'] = 'def path P2 = -rel-here d2.txt\n'
+        want = {'p0': 'proj/d0.txt', 'p1': 'proj/inc/d1.txt', 'p2': 'proj/inc/deep/d2.txt'}
+        if shape == 'include-3-levels':
+            files['proj/inc/deep/b.xly'] += 'including ../../other/c.xly\n'
+            files['proj/other/c.xly'] = 'def path P3 = -rel-here d3.txt\n'
+            files['proj/main.case'] = files['proj/main.case'].replace('[act]', P('p3', 'P3') + '\n[act]')
+            want['p3'] = 'proj/other/d3.txt'
+        if shape == 'include-sibling-dirs':
+            argv, cwd = ['proj/main.case'], root
+        else:
+            argv, cwd = ['main.case'], os.path.join(root, 'proj')
+    else:
+        files['proj/sub/s.suite'] = '[cases]\nk.case\n[setup]\ndef path PS = -rel-here sdata.txt\n'
+        files['proj/sub/k.case'] = '[setup]\ndef path PK = -rel-here kdata.txt\n' + P('ps', 'PS') + '\n' + P('pk', 'PK') + \
+            '\n[act]\n$ true\n'
+        want = {'ps': 'proj/sub/sdata.txt', 'pk': 'proj/sub/kdata.txt'}
+        argv, cwd = {
+            'suite-relative': (['suite', 'sub/s.suite'], os.path.join(root, 'proj')),
+            'suite-option-relative': (['--suite', 'proj/sub/s.suite', 'proj/sub/k.case'], root),
+            'suite-absolute': (['suite', os.path.join(root, 'proj/sub/s.suite')], root),
+            'case-relative-from-parent': (['--suite', 'sub/s.suite', 'sub/k.case'], os.path.join(root, 'proj')),
+            'case-relative-dotdot': (['--suite', '../sub/s.suite', '../sub/k.case'], os.path.join(root, 'proj/sub2')),
+        }[shape]
+        files['proj/sub2/x'] = ''
+    from vf import driver
+    driver.write_files(root, files)
+    r = ses.run(argv, cwd=cwd, mode=None, m3=False)
+    viol, inconc = [], []
+
+    def bad(msg):
+        viol.append({'what': 'C12 H %s: %s' % (shape, msg),
+                     'detail': {'files': {k: v for k, v in files.items() if v}, 'argv': argv,
+                                'cwd': os.path.relpath(cwd, root), 'observed': {'rc': r.rc, 'out': r.out[:200],
+                                                                               'stderr': r.err[:600]}}})
+
+    if r.timed_out:
+        inconc.append('watchdog')
+    elif r.exc is not None:
+        bad('exception escaped MainProgram.execute')
+    elif r.rc != 0:
+        bad('a valid case does not pass: exit code %r' % r.rc)
+    else:
+        got = {x['id']: x['argv'][-1] for x in probe.read_records(rec) if x['argv']}
+        for ident, rel in sorted(want.items()):
+            ctx.count('c12.rel_here_renderings')
+            # (the path may be spelled through `..` components: it is the file denoted that counts; no links involved)
+            if got.get(ident) is None or os.path.normpath(got[ident]) != os.path.join(root, rel):
+                bad('-rel-here of %s denotes %r, the directory of the file that holds the definition gives %r'
+                    % (ident, got.get(ident), os.path.join(root, rel)))
+    ses.clean_tmp()
+    ses.drop(root)
+    return {'classes': [('H', shape)], 'viol': viol, 'inconclusive': inconc, 'evaluations': len(want)}
+
+
 def _f_cases():
     """F: what one instruction accepts must not depend on which instructions were read before it, in the same case
     file - run in a FRESH interpreter, so that nothing read by earlier cases of this worker can mask the order.
@@ -505,6 +580,8 @@ def cases(tier, seed):
     for c in _d_cases():
         yield c
     for c in _l_cases():
+        yield c
+    for c in _h_cases():
         yield c
     for c in _f_cases():
         yield c
@@ -1108,6 +1185,8 @@ def run_case(case, ctx):
         return run_d(case, ctx)
     if case['t'] == 'L':
         return run_l(case, ctx)
+    if case['t'] == 'H':
+        return run_h(case, ctx)
     if case['t'] == 'F':
         return run_f(case, ctx)
     if case['t'] == 'E':
